@@ -310,8 +310,9 @@ func (m apiNoBodyStruct) Request(ctx context.Context, req http.RequestGetter, fi
 				return "", fmt.Errorf("invalid conv options type: %T", v)
 			}
 			opts = *op2
+		} else {
+			opts = op1
 		}
-		opts = op1
 	}
 
 	p := thrift.NewBinaryProtocolBuffer()
